@@ -43,17 +43,19 @@ type shadow struct {
 }
 
 type scheduler struct {
-	threads     []*thread
-	cur         *thread
-	fatal       interface{}
-	killing     bool
-	mutex       map[*Value]*mutexState
-	wg          map[*Value]*wgState
-	once        map[*Value]*onceState
-	shadow      map[interface{}]*shadow
-	atomVC      map[*Value][]int
-	switches    int
-	maxSwitches int
+	threads      []*thread
+	cur          *thread
+	fatal        interface{}
+	killing      bool
+	mutex        map[*Value]*mutexState
+	wg           map[*Value]*wgState
+	once         map[*Value]*onceState
+	shadow       map[interface{}]*shadow
+	atomVC       map[*Value][]int
+	switches     int
+	maxSwitches  int
+	preemptions  int
+	preemptBound int
 }
 
 type mutexState struct {
@@ -76,6 +78,12 @@ func (in *Interp) newScheduler() {
 	s.threads = []*thread{main}
 	s.cur = main
 	s.maxSwitches = 200
+	s.preemptBound = -1
+	if in.cfg != nil && in.cfg.PreemptBound != nil {
+		if v, ok := in.cfg.PreemptBound[in.tier]; ok {
+			s.preemptBound = v
+		}
+	}
 	in.sched = s
 }
 
@@ -199,6 +207,35 @@ func (in *Interp) pickNext(exiting bool) *thread {
 		in.incomplete = append(in.incomplete, "schedule bound reached")
 		return en[0]
 	}
+	if s.preemptBound >= 0 {
+		// bounded exploration: the default scheduler continues the current
+		// thread if it can run, else the lowest-numbered enabled thread; every
+		// other choice is a deviation and at most preemptBound deviations are
+		// taken per execution
+		def := 0
+		for i, t := range en {
+			if t == s.cur {
+				def = i
+			}
+		}
+		if s.preemptions >= s.preemptBound {
+			return en[def]
+		}
+		k := in.choose(len(en))
+		if !in.concreteMode {
+			in.inputs = append(in.inputs, inputRec{conc: uint64(k), label: "sched"})
+		}
+		// choice 0 is the default
+		idx := def
+		if k > 0 {
+			idx = k - 1
+			if idx >= def {
+				idx = k
+			}
+			s.preemptions++
+		}
+		return en[idx]
+	}
 	k := in.choose(len(en))
 	if !in.concreteMode {
 		in.inputs = append(in.inputs, inputRec{conc: uint64(k), label: "sched"})
@@ -206,12 +243,21 @@ func (in *Interp) pickNext(exiting bool) *thread {
 	return en[k]
 }
 
-// yield is a scheduling point for a runnable current thread.
+// yield is a scheduling point for a runnable current thread. Switching away
+// from a thread that could continue is a preemption; the number of
+// preemptions per execution is bounded (context-bounded exploration). Switches
+// at blocking operations and thread exits are always free.
 func (in *Interp) yield() {
 	if !in.multi() {
 		return
 	}
+	s := in.sched
+	if s.preemptBound >= 0 && s.preemptions >= s.preemptBound {
+		return
+	}
+	before := s.cur
 	in.switchFrom(nil)
+	_ = before
 }
 
 // block parks the current thread until ready() holds.
